@@ -9,13 +9,11 @@ Local Open Scope Z_scope.
 Theorem c19_wf_preserved : forall c o id, Wf c -> Wf (cset c o) /\ Wf (cdelete c id).
 Proof. exact wf_preserved. Qed.
 Print Assumptions c19_wf_preserved.
-Example c19_sep1 : True. Proof. idtac "". exact I. Qed. (* prints a blank line: ./check's Print Assumptions parser needs one between two Axioms blocks *)
 
 (* Hence it holds after every history of Set/Delete starting from New(). *)
 Theorem c19_any_history : forall ops, Wf (run ops).
 Proof. exact wf_run. Qed.
 Print Assumptions c19_any_history.
-Example c19_sep2 : True. Proof. idtac "". exact I. Qed. (* prints a blank line: ./check's Print Assumptions parser needs one between two Axioms blocks *)
 
 (* Counters = recomputation from the objects the id scan returns. *)
 Theorem c19_counters_agree : forall c, Wf c ->
@@ -25,7 +23,6 @@ Theorem c19_counters_agree : forall c, Wf c ->
   ctotal_weight c = zsum o_weight (scan_ids c).
 Proof. exact counters_agree. Qed.
 Print Assumptions c19_counters_agree.
-Example c19_sep3 : True. Proof. idtac "". exact I. Qed. (* prints a blank line: ./check's Print Assumptions parser needs one between two Axioms blocks *)
 
 (* Every access path returns exactly the retrievable objects of its class (retrievable = what
    Get returns for that id), without duplicates. *)
@@ -38,7 +35,6 @@ Theorem c19_paths_agree : forall c, Wf c ->
   NoDup (map o_id (spatial_list c)) /\ NoDup (map o_id (scan_expires c)).
 Proof. exact paths_agree. Qed.
 Print Assumptions c19_paths_agree.
-Example c19_sep4 : True. Proof. idtac "". exact I. Qed. (* prints a blank line: ./check's Print Assumptions parser needs one between two Axioms blocks *)
 
 (* Bounds. Full statement wanted by the property:
      forall c b, Wf c -> bounds_ok c b = true -> bounds_exact c b = true
@@ -47,7 +43,6 @@ Theorem c19_bounds_exact_refuted :
   exists c b, Wf c /\ bounds_ok c b = true /\ bounds_exact c b = false.
 Proof. exact bounds_exact_refuted. Qed.
 Print Assumptions c19_bounds_exact_refuted.
-Example c19_sep5 : True. Proof. idtac "". exact I. Qed. (* prints a blank line: ./check's Print Assumptions parser needs one between two Axioms blocks *)
 
 (* What does hold: every reported side is the exact coordinate of a retrievable spatial non-empty
    object, and that object's float32 index key is extreme among the keys of all such objects.
@@ -57,14 +52,12 @@ Theorem c19_bounds_partial : forall c b,
   Wf c -> c_spatial c <> [] -> bounds_ok c b = true -> bounds_spec_partial c b.
 Proof. exact bounds_partial. Qed.
 Print Assumptions c19_bounds_partial.
-Example c19_sep6 : True. Proof. idtac "". exact I. Qed. (* prints a blank line: ./check's Print Assumptions parser needs one between two Axioms blocks *)
 
 Theorem c19_bounds_empty : forall c b, c_spatial c = [] -> bounds_ok c b = true ->
   f64_same (r64_minx b) zero64 = true /\ f64_same (r64_miny b) zero64 = true /\
   f64_same (r64_maxx b) zero64 = true /\ f64_same (r64_maxy b) zero64 = true.
 Proof. exact bounds_empty. Qed.
 Print Assumptions c19_bounds_empty.
-Example c19_sep7 : True. Proof. idtac "". exact I. Qed. (* prints a blank line: ./check's Print Assumptions parser needs one between two Axioms blocks *)
 
 (* non-vacuity: a well-formed state with a string, a geometry, an empty geometry and a deadline;
    and a state with a non-empty spatial index and an admissible exact Bounds answer *)
